@@ -1095,9 +1095,10 @@ Proof.
   - unfold insert_label in Hs. destruct (dict_mem (c_labels c) name); [discriminate|]. injection Hs as <-. simpl.
     apply dict_set_forall; [exact L|]. unfold prim_ok in Hp. simpl in Hp. exact Hp.
   - apply rbind_ok in Hs as (? & _ & Hs). apply rbind_ok in Hs as (a & _ & Hs). destruct (negb _); [discriminate|].
+    unfold insert_segment in Hs. destruct (dict_mem _ _); [discriminate|].
     injection Hs as <-. simpl. apply dict_set_forall; [exact L|]. apply wflip_label_nice.
-  - apply rbind_ok in Hs as (? & _ & Hs). apply rbind_ok in Hs as (r & _ & Hs). destruct (negb _); [discriminate|].
-    now injection Hs as <-.
+  - apply rbind_ok in Hs as (? & _ & Hs). apply rbind_ok in Hs as (r & _ & Hs). destruct (r <? 0)%Z; [discriminate|].
+    destruct (negb _); [discriminate|]. now injection Hs as <-.
 Qed.
 
 Lemma prim_labels_nice w D' rec' P : forall st st',
